@@ -155,6 +155,11 @@ func (b *rtBuilder) term(t []J) string {
 		v, tl := b.v(), b.v()
 		b.goals = append(b.goals, fmt.Sprintf("'='(%s, '.'(%s, %s))", v, x, tl))
 		return v
+	case "ptail":
+		x := b.term(t[1].([]J))
+		v := b.v()
+		b.goals = append(b.goals, fmt.Sprintf("'='(%s, '.'(a, '.'(b, %s)))", v, x))
+		return v
 	}
 	panic(fmt.Sprint("bad shape ", t))
 }
